@@ -124,6 +124,11 @@ func main() {
 	r.Set("traces_validated_against_impl", trans)
 	r.Set("max_depth", depth)
 	r.Set("configs", parts)
+	if cases, msg := avlh.PanickingComparator(); msg != "" {
+		r.Report(ev.Violation{Sig: "family|panicking-comparator", Msg: msg, Replay: map[string]any{"family": "panicking-comparator"}})
+	} else {
+		r.Set("panicking_comparator_cases", cases)
+	}
 	r.Set("rule", "explicit-state BFS to fixpoint over the real avl.Tree with distinct values (shape unique from pre+in order): every insertion order and every interleaving of insertions and deletions under the size bound; oracle: AVL balance at every node, depth <= 1.4405*log2(n+2), comparator calls of Contains within 2*bound+2; plus 9 parametrised insertion/deletion families checked after every call up to family_nmax PLUS deterministic families beyond the exhaustive bound (large sizes, every single/double removal from trees built in 7 orders, long one-instance churn histories): see the *_family_* counters")
 	r.Finish()
 }
